@@ -218,25 +218,30 @@ pub fn string_index_of(
     let s = interp.to_js_string(&this);
     let search = match args.first() {
         Some(v) => interp.to_js_string(v),
-        None => interp.intern(""),
+        None => interp.intern("undefined"),
     };
-    let from_index = args.get(1).map(|v| v.to_number() as usize).unwrap_or(0);
+    // Positions count characters, not UTF-8 bytes
+    let haystack: Vec<char> = s.as_str().chars().collect();
+    let needle: Vec<char> = search.as_str().chars().collect();
+    let from = args.get(1).map(|v| v.to_number()).unwrap_or(0.0);
+    let from = if from.is_nan() {
+        0.0
+    } else {
+        math::trunc(from)
+    };
+    let from = (from.max(0.0) as usize).min(haystack.len());
 
-    if from_index >= s.len() {
-        return Ok(Guarded::unguarded(JsValue::Number(-1.0)));
+    if needle.is_empty() {
+        return Ok(Guarded::unguarded(JsValue::Number(from as f64)));
     }
-
-    // Use get() for safe slicing - from_index is validated above to be < len
-    match s
-        .as_str()
-        .get(from_index..)
-        .and_then(|slice| slice.find(search.as_str()))
-    {
-        Some(pos) => Ok(Guarded::unguarded(JsValue::Number(
-            (from_index + pos) as f64,
-        ))),
-        None => Ok(Guarded::unguarded(JsValue::Number(-1.0))),
+    if needle.len() <= haystack.len() {
+        for start in from..=(haystack.len() - needle.len()) {
+            if haystack.get(start..start + needle.len()) == Some(needle.as_slice()) {
+                return Ok(Guarded::unguarded(JsValue::Number(start as f64)));
+            }
+        }
     }
+    Ok(Guarded::unguarded(JsValue::Number(-1.0)))
 }
 
 pub fn string_last_index_of(
@@ -247,39 +252,32 @@ pub fn string_last_index_of(
     let s = interp.to_js_string(&this);
     let search = match args.first() {
         Some(v) => interp.to_js_string(v),
-        None => interp.intern(""),
+        None => interp.intern("undefined"),
     };
-    let len = s.len();
-
-    // Default from_index is length of string
-    let from_index = if let Some(arg) = args.get(1) {
-        let n = arg.to_number();
-        if n.is_nan() {
-            len
-        } else {
-            (n as isize).max(0) as usize
-        }
+    let haystack: Vec<char> = s.as_str().chars().collect();
+    let needle: Vec<char> = search.as_str().chars().collect();
+    // A missing or NaN position means "from the end"
+    let from = args.get(1).map(|v| v.to_number()).unwrap_or(f64::NAN);
+    let from = if from.is_nan() {
+        f64::INFINITY
     } else {
-        len
+        math::trunc(from)
     };
-
-    // Empty search string returns from_index clamped to length
-    if search.is_empty() {
-        return Ok(Guarded::unguarded(JsValue::Number(
-            from_index.min(len) as f64
-        )));
+    if needle.len() > haystack.len() {
+        return Ok(Guarded::unguarded(JsValue::Number(-1.0)));
     }
-
-    // Search backwards from from_index
-    let search_end = (from_index + search.len()).min(len);
-    match s
-        .as_str()
-        .get(..search_end)
-        .and_then(|slice| slice.rfind(search.as_str()))
-    {
-        Some(pos) => Ok(Guarded::unguarded(JsValue::Number(pos as f64))),
-        None => Ok(Guarded::unguarded(JsValue::Number(-1.0))),
+    let last_start = haystack.len() - needle.len();
+    let mut start = (from.max(0.0) as usize).min(last_start);
+    loop {
+        if haystack.get(start..start + needle.len()) == Some(needle.as_slice()) {
+            return Ok(Guarded::unguarded(JsValue::Number(start as f64)));
+        }
+        if start == 0 {
+            break;
+        }
+        start -= 1;
     }
+    Ok(Guarded::unguarded(JsValue::Number(-1.0)))
 }
 
 pub fn string_at(
@@ -288,7 +286,7 @@ pub fn string_at(
     args: &[JsValue],
 ) -> Result<Guarded, JsError> {
     let s = interp.to_js_string(&this);
-    let len = s.len() as isize;
+    let len = s.as_str().chars().count() as isize;
     let index = if let Some(v) = args.first() {
         interp.coerce_to_number(v)? as isize
     } else {
@@ -390,7 +388,8 @@ pub fn string_slice(
     args: &[JsValue],
 ) -> Result<Guarded, JsError> {
     let s = interp.to_js_string(&this);
-    let len = s.len() as i64;
+    // positions count characters, not UTF-8 bytes
+    let len = s.as_str().chars().count() as i64;
 
     let start_arg = args.first().map(|v| v.to_number() as i64).unwrap_or(0);
     let end_arg = args
@@ -431,7 +430,7 @@ pub fn string_substring(
     args: &[JsValue],
 ) -> Result<Guarded, JsError> {
     let s = interp.to_js_string(&this);
-    let len = s.len();
+    let len = s.as_str().chars().count();
 
     let start = args
         .first()
@@ -581,7 +580,8 @@ pub fn string_split(
     let limit = args
         .get(1)
         .filter(|v| !v.is_undefined())
-        .map(|v| v.to_number() as usize);
+        // ToUint32: a negative limit wraps around to a huge one
+        .map(|v| crate::value::to_uint32(v.to_number()) as usize);
 
     let parts: Vec<JsValue> = match separator_arg {
         // Per ECMAScript spec: if separator is undefined, return array containing original string
@@ -945,13 +945,22 @@ pub fn string_char_code_at(
     args: &[JsValue],
 ) -> Result<Guarded, JsError> {
     let s = interp.to_js_string(&this);
-    let index = if let Some(v) = args.first() {
-        interp.coerce_to_number(v)? as usize
+    // ToIntegerOrInfinity: NaN is 0, fractions truncate; a negative position is out of range
+    let position = if let Some(v) = args.first() {
+        interp.coerce_to_number(v)?
     } else {
-        0
+        0.0
     };
+    let position = if position.is_nan() {
+        0.0
+    } else {
+        math::trunc(position)
+    };
+    if position < 0.0 {
+        return Ok(Guarded::unguarded(JsValue::Number(f64::NAN)));
+    }
 
-    if let Some(ch) = s.as_str().chars().nth(index) {
+    if let Some(ch) = s.as_str().chars().nth(position as usize) {
         Ok(Guarded::unguarded(JsValue::Number(ch as u32 as f64)))
     } else {
         Ok(Guarded::unguarded(JsValue::Number(f64::NAN)))
@@ -1038,9 +1047,15 @@ pub fn string_code_point_at(
 ) -> Result<Guarded, JsError> {
     let s = interp.to_js_string(&this);
     let index = args.first().map(|v| v.to_number()).unwrap_or(0.0);
+    // ToIntegerOrInfinity: NaN is 0, fractions truncate
+    let index = if index.is_nan() {
+        0.0
+    } else {
+        math::trunc(index)
+    };
 
-    // Check for negative or non-integer index
-    if index < 0.0 || math::fract(index) != 0.0 {
+    // A negative position is out of range
+    if index < 0.0 {
         return Ok(Guarded::unguarded(JsValue::Undefined));
     }
 
